@@ -566,6 +566,12 @@ func init() {
 	reg(registryFam(), 6)
 	reg(tknFam(), 2)
 	reg(coldFam(), 8)
+	// the same tasks (objects of their own, nothing shared but package-level state) after a
+	// sequential counting pass: the state is warm, but switch points are placed with measured
+	// statement counts and at the shared-write sites, over the whole length of the calls
+	own := coldFam()
+	own.name, own.cold, own.late = "own", false, false
+	reg(own, 8)
 	reg(blindFam(), 4)
 	reg(csidhFam(), 2)
 	reg(decodersFam(), 12)
@@ -654,6 +660,11 @@ func directed(tier string) []any {
 			grid := 8
 			if tier == "thorough" {
 				grid = 32
+			}
+			if n == "own" && k != "tkn20" && grid < 24 {
+				// package-level scratch and tables are touched in short windows (an entry changed
+				// in place and restored): a denser grid for the calls that are cheap
+				grid = 24
 			}
 			for g := 0; g < grid; g++ {
 				pair(k, uint64(100+ki), SwitchSpec{Task: 0, Mode: "frac", Num: uint64((2*g + 1) * 1000000 / (2 * grid)), To: 1})
